@@ -642,7 +642,8 @@ Definition count_ev (p : event -> bool) (tr : list event) : nat := length (filte
 
 (* c05.run:
      detail   0 = scripted server and client (everything observable), 1 = scripted server with the
-              real in-process clients, 2 = scripted client with the real in-process servers
+              real in-process clients, 2 = scripted client with the real in-process servers (reference
+              AND grpc-go: two server kinds, one semaphore), 3 = as 2 with answers held back
      lockstep 1 = the script is followed move by move and snapshots are compared
      verbose  1 = flags.Verbose (instances sorted)
    (detail lockstep verbose maxservers missing (run patterns) (skip patterns) (suites) (decisions) (script))
@@ -652,6 +653,9 @@ Definition run_c05_run (args : list sx) : sx :=
   | [detail; lockstep; verbose; maxs; missing; runp; skipp; suites; ds; script] =>
     do detail <- un_N detail; do lockstep <- un_bool lockstep; do verbose <- un_bool verbose;
     do maxs <- un_nat maxs; do missing <- un_bool missing;
+    (* detail 3 = detail 2 with a client that holds its answers while requests keep arriving: the same
+       plan, the same semaphore for the batches of BOTH server kinds, the same observables *)
+    let detail := if detail =? 3 then 2 else detail in
     do runp <- un_listof un_B runp; do skipp <- un_listof un_B skipp;
     let refc := (detail =? 1) in
     let refs := (detail =? 2) in
@@ -680,7 +684,7 @@ Definition run_c05_run (args : list sx) : sx :=
       ret (L [ sx_bool (negb (terminal s));
                L (if lockstep then map sx_snapshot sn else []);
                L (map snd (sort_by fst (send_records p detail tr)));
-               (if refs then L []
+               (if refs then L [ sx_bool (Nat.leb (max_alive tr) maxs) ]
                 else L [ (if lockstep then sx_nat (max_alive tr) else sx_bool (Nat.leb (max_alive tr) maxs));
                          sx_nat (count_ev (fun e => match e with ESpawn _ => true | _ => false end) tr);
                          sx_nat (count_ev (fun e => match e with EStop _ => true | _ => false end) tr);
